@@ -203,6 +203,13 @@ def run(ctx):
         seed = ctx.rng.randrange(1 << 48)
         cases.append(gen_size_case(seed, i) if i % 3 == 0 else gen_value_case(seed, i, wrap_in_minmax=(i % 10 == 1)))
     cases = [c for c in cases if c["cg"].decls]
+    # the recorded instance of wrapping under min / max (theorem C12_minmax_differs)
+    cg = ConstGen(random.Random(0))
+    cg.decls.append(("C", "u8", "max(PARTY_0::A + 200u8, 50u8)", ["max"]))
+    cg.supplied = {"PARTY_0": {"A": ("u8", 100)}}
+    cases.append({"id": len(cases) and max(c["id"] for c in cases) + 1, "seed": 0, "kind": "value-wrap-under-minmax",
+                  "src_a": "const C: u8 = max(PARTY_0::A + 200u8, 50u8);\npub fn main(x: u8) -> u8 { x ^ C }\n",
+                  "src_b": "pub fn main(x: u8) -> u8 { x ^ 50u8 }\n", "params": [["x", {"k": "int", "t": "u8"}]], "args": [[0], [255]], "cg": cg})
 
     def req(c, src, consts, idx):
         return {"id": c["id"] * 4 + idx, "op": "compile_eval", "src": src, "kind": "ssa", "dedup": True, "consts": consts,
